@@ -25,6 +25,8 @@ ERG = _d(L=2, M=1, T=-2)
 TABLE = {
     # name: (factor to CGS, dimension)
     "dimensionless": (1.0, ZERO),
+    "percent": (0.01, ZERO),
+    "radian": (1.0, ZERO),
     "centimeter": (1.0, L),
     "meter": (100.0, L),
     "kilometer": (1.0e5, L),
